@@ -16,6 +16,8 @@ import (
 	"encoding/hex"
 	"encoding/json"
 	"fmt"
+	"io"
+	"log/slog"
 	"math/rand"
 	"net/http"
 	"os"
@@ -666,6 +668,7 @@ func TestWorker(t *testing.T) {
 	out := bufio.NewWriterSize(os.Stdout, 1<<20)
 	defer out.Flush()
 	enc := json.NewEncoder(out)
+	slog.SetDefault(slog.New(slog.NewTextHandler(io.Discard, nil)))
 	switch mode {
 	case "worker":
 		seed, from, stride, max, deadline := envInt("VERIF_P_SEED", 1), envInt("VERIF_P_FROM", 0), envInt("VERIF_P_STRIDE", 1), envInt("VERIF_P_MAX", 0), envInt("VERIF_P_DEADLINE", 0)
@@ -681,13 +684,20 @@ func TestWorker(t *testing.T) {
 			_ = enc.Encode(&workerLine{Type: "start", Run: int(run)})
 			out.Flush()
 			rng := rand.New(rand.NewSource(seed*1_000_003 + run*7919 + 18))
-			plan := &k.Plan{Property: "C18", Profile: "poll", Seed: seed, Run: int(run), Engine: "P", Config: encodeCfg(genConfig(rng))}
-			res := runPlan(t, plan, rng, os.Getenv("VERIF_P_VERBOSE") != "")
+			exec := runPlan
+			plan := &k.Plan{Property: "C18", Profile: "poll", Seed: seed, Run: int(run), Engine: "P"}
+			if os.Getenv("VERIF_P_PROP") == "C12" {
+				exec = runLoopPlan
+				plan = &k.Plan{Property: "C12", Profile: "loop", Seed: seed, Run: int(run), Engine: "L", Config: lEncode(genLoopConfig(rng))}
+			} else {
+				plan.Config = encodeCfg(genConfig(rng))
+			}
+			res := exec(t, plan, rng, os.Getenv("VERIF_P_VERBOSE") != "")
 			if os.Getenv("VERIF_P_VERIFY_REPLAY") != "" {
 				b, _ := json.Marshal(plan)
 				var p2 k.Plan
 				_ = json.Unmarshal(b, &p2)
-				if r2 := runPlan(t, &p2, nil, false); r2.EventHash != res.EventHash {
+				if r2 := exec(t, &p2, nil, false); r2.EventHash != res.EventHash {
 					res.EventHash += "!replay-diverged"
 				}
 			}
@@ -706,7 +716,11 @@ func TestWorker(t *testing.T) {
 		if err := json.Unmarshal(b, &plan); err != nil {
 			t.Fatal(err)
 		}
-		res := runPlan(t, &plan, nil, mode == "replay" && os.Getenv("VERIF_P_VERBOSE") != "")
+		exec := runPlan
+		if plan.Engine == "L" {
+			exec = runLoopPlan
+		}
+		res := exec(t, &plan, nil, mode == "replay" && os.Getenv("VERIF_P_VERBOSE") != "")
 		_ = enc.Encode(res)
 	}
 }
